@@ -19,7 +19,7 @@ use rten_model_file::schema as sg;
 use rten_tensor::Storage;
 use rten_tensor::prelude::*;
 use vcommon::onnx::{self, f_bytes, f_str, f_varint, key, varint};
-use vcommon::{Rng, Trace, Value, arg, arg_or, arg_usize, json, limbs, quiet_panics, read_json_lines};
+use vcommon::{Rng, Trace, Value, arg, arg_or, arg_usize, json, limbs, read_json_lines};
 
 use crate::child::{ItemResult, batch_child_main, run_batch};
 use crate::pb::{hex, unhex};
@@ -296,7 +296,7 @@ fn onnx_shape_mutations(cands: &[Vec<i64>]) -> Vec<(String, Vec<i64>, usize)> {
     v
 }
 
-fn gen_onnx(rng: &mut Rng, quick: bool, cands: &[Vec<i64>]) -> Vec<FCase> {
+fn gen_onnx(rng: &mut Rng, quick: bool, cands: &[Vec<i64>], scale: usize) -> Vec<FCase> {
     let mut v = Vec::new();
     let muts = onnx_shape_mutations(cands);
     for (dtype, esize, dname) in DTYPES {
@@ -388,7 +388,7 @@ fn gen_onnx(rng: &mut Rng, quick: bool, cands: &[Vec<i64>]) -> Vec<FCase> {
         onnx_model(onnx::INT64, &[2, 3], &Src::Typed(6), false),
         onnx_model(onnx::UINT8, &[2, 3], &Src::Raw(vec![0; 6]), true),
     ];
-    let nflip = if quick { 120 } else { 6000 };
+    let nflip = (if quick { 120 } else { 6000 }) * scale / 100;
     for i in 0..nflip {
         let base = &bases[i % bases.len()];
         let mut b = base.clone();
@@ -414,7 +414,7 @@ fn put_u64(b: &mut [u8], at: usize, v: u64) {
     b[at..at + 8].copy_from_slice(&v.to_le_bytes());
 }
 
-fn gen_rten(rng: &mut Rng, quick: bool, cands: &[Vec<i64>]) -> Vec<FCase> {
+fn gen_rten(rng: &mut Rng, quick: bool, cands: &[Vec<i64>], scale: usize) -> Vec<FCase> {
     let mut v = Vec::new();
     let p16 = 1u32 << 16;
     let p31 = 1u32 << 31;
@@ -516,7 +516,7 @@ fn gen_rten(rng: &mut Rng, quick: bool, cands: &[Vec<i64>]) -> Vec<FCase> {
             bases.push(b);
         }
     }
-    let nflip = if quick { 300 } else { 12000 };
+    let nflip = (if quick { 300 } else { 12000 }) * scale / 100;
     for i in 0..nflip {
         let base = &bases[i % bases.len()];
         let mut b = base.clone();
@@ -552,7 +552,16 @@ fn sanitize(s: &str) -> String {
 
 /// Coarse class of a panic / error message (used in signatures only).
 fn err_class(msg: &str) -> &'static str {
-    for k in ["does not match shape", "assertion failed", "capacity overflow", "out of range", "out of bounds", "overflow", "unwrap", "storage does not contain data"] {
+    for k in [
+        "attempt to multiply with overflow",
+        "attempt to add with overflow",
+        "attempt to subtract with overflow",
+        "attempt to negate with overflow",
+        "attempt to shift",
+        "attempt to divide",
+        "unsafe precondition",
+        "does not match shape",
+        "assertion failed", "capacity overflow", "out of range", "out of bounds", "overflow", "unwrap", "storage does not contain data"] {
         if msg.contains(k) {
             return k;
         }
@@ -655,7 +664,7 @@ fn run_case(item: &Value) {
 
 /// `vh-load fuzz-batch <file> <from>`
 pub fn main_batch_child() {
-    quiet_panics();
+    crate::child::terse_panics();
     batch_child_main(&run_case);
 }
 
@@ -739,8 +748,9 @@ pub fn main_fuzz() {
         let want = if quick { 12 } else { 150 };
         let stride = sorted.len().div_ceil(want).max(1);
         let cands_used: Vec<Vec<i64>> = sorted.into_iter().step_by(stride).collect();
-        let mut cases = gen_onnx(&mut rng, quick, &cands_used);
-        cases.extend(gen_rten(&mut rng, quick, &cands_used));
+        let scale = arg_usize("--scale", 100);
+        let mut cases = gen_onnx(&mut rng, quick, &cands_used, scale);
+        cases.extend(gen_rten(&mut rng, quick, &cands_used, scale));
         for c in cases {
             let apis: &[&'static str] = if c.fmt == "rten" || !quick { &["load", "load_file", "load_mmap"] } else { &["load", "load_file"] };
             for api in apis {
@@ -787,7 +797,7 @@ pub fn main_fuzz() {
     }
     let mut tr = Trace::create(&out);
     for (id, (c, api)) in jobs.iter().enumerate() {
-        tr.emit(json!({"ev": "case", "id": id, "fmt": c.fmt, "api": api, "gen": c.gen_name, "mutation": c.mutation,
+        tr.emit(json!({"ev": "case", "id": id, "build": crate::proto::build_name(), "fmt": c.fmt, "api": api, "gen": c.gen_name, "mutation": c.mutation,
                        "n": c.bytes.len(), "hex": if c.bytes.len() <= 2048 { hex(&c.bytes) } else { String::new() },
                        "ext": c.ext.as_ref().map(|e| hex(e)).unwrap_or_default()}));
         let r = results[id].as_ref().unwrap();
@@ -812,7 +822,9 @@ pub fn main_fuzz() {
         };
         let detail = if r.status == "signal" { format!("signal {}", r.code) } else { sanitize(&r.stderr) };
         // class of a failure that killed the child, from what it printed / from a decoder probe
-        let errclass = if r.stderr.contains("memory allocation") {
+        let errclass = if r.stderr.contains("unsafe precondition") {
+            "unsafe precondition violated (std UB check)"
+        } else if r.stderr.contains("memory allocation") {
             "memory allocation failed"
         } else if r.stderr.contains("overflowed its stack") {
             "stack overflow"
